@@ -177,7 +177,12 @@ def handle (line : String) : String :=
     | some v, some bs =>
       let text := (Scan.decodeAll bs).map (fun r => Char.ofNat r.ch)
       let pm := printMatches v text
-      s!"pm={tf pm} {roundTrip v}\t{if readableData v then "pm=T rt=ok" else "-"}"
+      -- the round trip is taken on the text Go actually printed (its map order is arbitrary: on values
+      -- with unreadable keys the *error* of the re-read depends on that order)
+      let rt := match Read.readStr {} bs with
+        | .ok v' => if structEqB v v' then "rt=ok" else "rt=FAIL"
+        | .error e => "rt=err:" ++ errClass e
+      s!"pm={tf pm} {rt}\t{if readableData v then "pm=T rt=ok" else "-"}"
     | _, _ => "bad-op"
   | ["reread", payload] =>
     match hexBytes payload with
